@@ -108,6 +108,12 @@ func stripConv(info *types.Info, e ast.Expr) ast.Expr {
 func resolveLocal(info *types.Info, body ast.Node, e ast.Expr) ast.Expr {
 	for i := 0; i < 4; i++ {
 		e = stripConv(info, e)
+		if call, isCall := e.(*ast.CallExpr); isCall {
+			if body := helperReturnExpr(info, call); body != nil {
+				e = body
+				continue
+			}
+		}
 		id, ok := e.(*ast.Ident)
 		if !ok {
 			return e
